@@ -55,9 +55,11 @@ def st_model(big):
             "prim_order": st.sampled_from(["function_major", "function_major", "primitive_major"]),
             "type_order": st.sampled_from(["aimpac", "gaussian", "gaussian", "lexical"]),
             "occupations": st.sampled_from(["scf", "scf", "natural"]),
-            "optional": st.fixed_dictionaries({name: st.booleans() for name in OPTIONAL}),
+            "optional": st.fixed_dictionaries(
+                {name: (st.sampled_from([True, True, False]) if name == "gradient" else st.booleans()) for name in OPTIONAL}
+            ),
             "partial_gradient": st.sampled_from([False] * 7 + [True]),
-            "gradient_shuffled": st.sampled_from([False, False, True]),
+            "gradient_shuffled": st.sampled_from([True, False]),
             "rohf_virtuals": st.sampled_from([False] * 4 + [True]),
             "method": st.sampled_from(METHODS),
             "edf": st.sampled_from([False, False, False, True]),
